@@ -32,15 +32,25 @@ MIN_NONTRIVIAL = 100
 def plan(tier, seed):
     out = [s for s in c06.plan(tier, seed) if s["kind"] == "lattice"]
     if tier == "quick":
-        kinds = {"random": 6000, "adversarial": 3000, "exact": 2500, "crowd": 3}
+        kinds = {"random": 6000, "adversarial": 3000, "exact": 2500, "crowd": 3, "storage": 40}
         per = 750
     else:
-        kinds = {"random": 400000, "adversarial": 150000, "exact": 120000, "crowd": 60}
+        kinds = {"random": 400000, "adversarial": 150000, "exact": 120000, "crowd": 60, "storage": 2000}
         per = 10000
     return out + common.shards(kinds, per_shard=per, tier=tier, seed=seed)
 
 
 def gen(rng, kind, tier):
+    if kind == "storage":
+        # stored images of a few droplets that jump by more than their diameter per frame (so the two matching methods
+        # disagree): tracks built directly from the storage follow the same rule as tracks built from the analysed frames
+        n = int(rng.integers(20, 33))
+        k = int(rng.integers(1, 4))
+        T = int(rng.integers(2, 5))
+        start = rng.uniform(4, n - 4, (k, 2))
+        vel = rng.uniform(-1, 1, (k, 2)) * float(rng.choice([0.3, 3.0, 5.0]))
+        frames = [[[float(x) for x in (start[j] + t * vel[j]) % n] + [float(rng.uniform(1.5, 2.5))] for j in range(k)] for t in range(T)]
+        return {"n": n, "frames": frames, "method": str(rng.choice(["distance", "overlap"])), "periodic": bool(rng.integers(0, 2))}
     h = c06.gen(rng, kind, tier, repeated_stamps=False)  # identity is keyed on the stamps: they stay pairwise distinct
     if h is not None and len(h["times"]) >= 2 and rng.random() < 0.3:
         # the statement speaks about consecutive frames of any time course: the time stamps need
@@ -54,7 +64,36 @@ def gen(rng, kind, tier):
     return h
 
 
+def run_storage(case, rec):
+    import droplets
+    import pde
+
+    from .c08 import snap
+
+    grid = pde.UnitGrid([case["n"]] * 2, periodic=case["periodic"])
+    fields = [droplets.Emulsion([droplets.DiffuseDroplet(r[:2], r[2], 0.8) for r in fr]).get_phasefield(grid) for fr in case["frames"]]
+    storage = pde.MemoryStorage.from_fields(times=[0.5 * t for t in range(len(fields))], fields=fields)
+    label = f"{len(fields)} stored frames on UnitGrid([{case['n']}]*2, periodic={case['periodic']}) method={case['method']}"
+    direct = common.monitored(rec, "DropletTrackList.from_storage", droplets.DropletTrackList.from_storage, storage,
+                              method=case["method"], progress=False)
+    etc = droplets.EmulsionTimeCourse.from_storage(storage, progress=False)
+    ref = common.monitored(rec, "from_emulsion_time_course", droplets.DropletTrackList.from_emulsion_time_course, etc,
+                           method=case["method"])
+    if rec.check(direct.ok and ref.ok, "no-exception", f"raised {direct.exc!r} / {ref.exc!r}; {label}"):
+        a = sorted((tuple(float(t) for t in tr.times), tuple(common.droplet_bytes(d) for d in tr.droplets)) for tr in direct.result)
+        b = sorted((tuple(float(t) for t in tr.times), tuple(common.droplet_bytes(d) for d in tr.droplets)) for tr in ref.result)
+        rec.check(a == b, "storage-route",
+                  f"tracks built from the storage ({len(a)} tracks of lengths {sorted(len(x[0]) for x in a)}) differ from tracks built "
+                  f"from the analysed frames with the same method ({len(b)} tracks of lengths {sorted(len(x[0]) for x in b)}); {label}")
+        other = droplets.DropletTrackList.from_emulsion_time_course(etc, method="overlap" if case["method"] == "distance" else "distance")
+        if sorted(len(tr) for tr in other) != sorted(len(x[0]) for x in b):
+            rec.count("storage_cases_where_the_methods_disagree")
+    rec.evaluated(nontrivial=True)
+
+
 def run(case, rec):
+    if case.get("kind") == "storage":
+        return run_storage(case, rec)
     if not tracking.frames_overlap_free(case):
         rec.count("overlapping_frames_skipped")
         return
@@ -74,4 +113,7 @@ def run_shard(spec, rec):
 
 def replay(v, rec):
     with rec.case(v["kind"], v["case"]):
-        c06.judge(v["case"], rec, clauses="C07")
+        if v["kind"] == "storage":
+            run_storage(v["case"], rec)
+        else:
+            c06.judge(v["case"], rec, clauses="C07")
